@@ -98,8 +98,8 @@ Proof.
   - (* TLit *) intros s a c _ H. cbn [quiet] in H. noalias a H. reflexivity.
   - (* TParam *) reflexivity.
   - (* TNeg *) intros t IH c Hwa H. cbn [quiet] in H. cbn [render strip_all].
-    rewrite opc_strip, neg_shape_strip, (IH (opc SNeg t c) (wa_opc_false _ _ _ Hwa) H).
-    destruct (render (opc SNeg t c) (strip_all t)); [|reflexivity]. cbn [bind]. rewrite opnd_strip. reflexivity.
+    rewrite opc_strip, neg_shape_strip, (IH (opc SNeg t (set_wa c false)) (wa_opc_setwa _ _ _) H).
+    destruct (render (opc SNeg t (set_wa c false)) (strip_all t)); [|reflexivity]. cbn [bind]. rewrite opnd_strip. reflexivity.
   - (* TArith *) intros op l IHl r IHr a c Hwa H. cbn [quiet] in H. split_and H. cbn [render strip_all].
     rewrite !opc_strip, (IHl (opc SArithL l (set_wa c false)) (wa_opc_setwa _ _ _) H),
             (IHr (opc SArithR r (set_wa c false)) (wa_opc_setwa _ _ _) Hq), !top_op_strip, Hwa.
@@ -114,19 +114,21 @@ Proof.
     cbn [bind]. rewrite !opnd_strip. reflexivity.
   - (* TCplx *) intros bo l IHl r IHr a c Hwa H. cbn [quiet] in H. split_and H. cbn [render strip_all].
     rewrite !top_bop_strip.
-    rewrite (IHl (set_subc c (needs_brackets_x bo (top_bop l))) Hwa H), (IHr (set_subc c (needs_brackets_x bo (top_bop r))) Hwa Hq).
+    rewrite (IHl (set_subc (set_wa c false) (needs_brackets_x bo (top_bop l))) eq_refl H),
+            (IHr (set_subc (set_wa c false) (needs_brackets_x bo (top_bop r))) eq_refl Hq), Hwa.
     reflexivity.
   - (* TIn *) intros t IHt cont IHc neg a c Hwa H. cbn [quiet] in H. split_and H. noalias a H. cbn [render strip_all].
-    rewrite opc_strip, (IHt (opc SInTerm t (set_subq c false)) (wa_opc_false SInTerm t (set_subq c false) Hwa) Hq0), (IHc (set_subq c true) Hwa Hq).
-    destruct (render (opc SInTerm t (set_subq c false)) (strip_all t)); [|reflexivity]. cbn [bind]. rewrite opnd_strip. reflexivity.
+    rewrite opc_strip, (IHt (opc SInTerm t (set_wa (set_subq c false) false)) (wa_opc_setwa SInTerm t (set_subq c false)) Hq0),
+            (IHc (set_wa (set_subq c true) false) eq_refl Hq).
+    destruct (render (opc SInTerm t (set_wa (set_subq c false) false)) (strip_all t)); [|reflexivity]. cbn [bind]. rewrite opnd_strip. reflexivity.
   - (* TBetween *) intros t IHt lo IHlo hi IHhi a c Hwa H. cbn [quiet] in H. split_and H. noalias a H. cbn [render strip_all].
-    rewrite !opc_strip, (IHt (opc SBetTerm t c) (wa_opc_false _ _ _ Hwa) Hq1), (IHlo (opc SBetLo lo c) (wa_opc_false _ _ _ Hwa) Hq0),
-            (IHhi (opc SBetHi hi c) (wa_opc_false _ _ _ Hwa) Hq).
-    destruct (render (opc SBetTerm t c) (strip_all t)); [|reflexivity].
-    destruct (render (opc SBetLo lo c) (strip_all lo)); [|reflexivity].
-    destruct (render (opc SBetHi hi c) (strip_all hi)); [|reflexivity]. cbn [bind]. rewrite !opnd_strip. reflexivity.
+    rewrite !opc_strip, (IHt (opc SBetTerm t (set_wa c false)) (wa_opc_setwa _ _ _) Hq1),
+            (IHlo (opc SBetLo lo (set_wa c false)) (wa_opc_setwa _ _ _) Hq0), (IHhi (opc SBetHi hi (set_wa c false)) (wa_opc_setwa _ _ _) Hq).
+    destruct (render (opc SBetTerm t (set_wa c false)) (strip_all t)); [|reflexivity].
+    destruct (render (opc SBetLo lo (set_wa c false)) (strip_all lo)); [|reflexivity].
+    destruct (render (opc SBetHi hi (set_wa c false)) (strip_all hi)); [|reflexivity]. cbn [bind]. rewrite !opnd_strip. reflexivity.
   - (* TBitAnd *) intros t IHt v a c Hwa H. cbn [quiet] in H. split_and H. noalias a H. cbn [render strip_all].
-    rewrite (IHt c Hwa Hq). reflexivity.
+    rewrite (IHt (set_wa c false) eq_refl Hq). reflexivity.
   - (* TIsNull *) intros t IHt a c Hwa H. cbn [quiet] in H. split_and H. noalias a H. cbn [render strip_all].
     rewrite opc_strip, (IHt (opc SIsNull t (set_wa c false)) (wa_opc_setwa _ _ _) Hq).
     destruct (render (opc SIsNull t (set_wa c false)) (strip_all t)); [|reflexivity]. cbn [bind]. rewrite opnd_strip. reflexivity.
@@ -134,9 +136,9 @@ Proof.
     rewrite opc_strip, (IHt (opc SNotNull t (set_wa c false)) (wa_opc_setwa _ _ _) Hq).
     destruct (render (opc SNotNull t (set_wa c false)) (strip_all t)); [|reflexivity]. cbn [bind]. rewrite opnd_strip. reflexivity.
   - (* TNot *) intros t IHt a c Hwa H. cbn [quiet] in H. split_and H. noalias a H. cbn [render strip_all].
-    rewrite (IHt (set_subc c true) Hwa Hq). reflexivity.
+    rewrite (IHt (set_wa (set_subc c true) false) eq_refl Hq). reflexivity.
   - (* TAll *) intros t IHt a c Hwa H. cbn [quiet] in H. split_and H. noalias a H. cbn [render strip_all].
-    rewrite (IHt c Hwa Hq). reflexivity.
+    rewrite (IHt (set_wa c false) eq_refl Hq). reflexivity.
   - (* TEmpty *) reflexivity.
   - (* TCase *) intros ws IHw els IHe a c Hwa H. cbn [quiet] in H. split_and H. cbn [strip_all]. rewrite !render_case.
     rewrite <- (IHw (set_wa c false) eq_refl H), <- (IHe (set_wa c false) eq_refl Hq), Hwa.
@@ -144,9 +146,9 @@ Proof.
   - (* TFunc *) intros n args IHa sp a c Hwa H. cbn [quiet] in H. cbn [render strip_all].
     rewrite (IHa (fctx c) eq_refl H), Hwa. reflexivity.
   - (* TTuple *) intros vs IHv a c Hwa H. cbn [quiet] in H. split_and H. noalias a H. cbn [render strip_all].
-    rewrite (IHv c Hwa Hq). reflexivity.
+    rewrite (IHv (set_wa c false) eq_refl Hq). reflexivity.
   - (* TArray *) intros vs IHv a c Hwa H. cbn [quiet] in H. split_and H. noalias a H. cbn [render strip_all].
-    rewrite (IHv c Hwa Hq). reflexivity.
+    rewrite (IHv (set_wa c false) eq_refl Hq). reflexivity.
   - (* TSub *) intros col tb a c Hwa _. cbn [render strip_all]. rewrite Hwa. reflexivity.
   - (* TNil *) reflexivity.
   - (* TCons *) intros t IHt r IHr c Hwa H. cbn [quiet_list] in H. split_and H. cbn [strip_list]. rewrite !render_list_cons.
@@ -207,6 +209,11 @@ Proof.
     destruct (render (opc SCmpL t1 (set_wa c false)) (strip_all t1)); [|reflexivity].
     destruct (render (opc SCmpR t2 (set_wa c false)) (strip_all t2)); [|reflexivity].
     cbn [bind wa set_wa]. rewrite !opnd_strip. reflexivity.
+  - (* TCplx *) split_and Hq. cbn [render strip_all]. rewrite !top_bop_strip, !set_wa_idem.
+    rewrite (quiet_render t1 (set_subc (set_wa c false) (needs_brackets_x b (top_bop t1))) eq_refl Hq),
+            (quiet_render t2 (set_subc (set_wa c false) (needs_brackets_x b (top_bop t2))) eq_refl Hq0), Hwa.
+    destruct (render (set_subc (set_wa c false) (needs_brackets_x b (top_bop t1))) (strip_all t1)); [|reflexivity].
+    destruct (render (set_subc (set_wa c false) (needs_brackets_x b (top_bop t2))) (strip_all t2)); reflexivity.
   - (* TCase *) split_and Hq. cbn [strip_all]. rewrite !render_case, set_wa_idem.
     rewrite (quiet_render_whens ws (set_wa c false) eq_refl Hq), (quiet_else els (set_wa c false) eq_refl Hq0), Hwa.
     pose proof (strip_whens_nil_iff ws) as N. destruct ws; [reflexivity|]. clear N.
